@@ -52,6 +52,14 @@ class Malformed(Harness):
                             if tier == "quick" and (col, mode) in ((2, "prepend"), (4, "prepend")):
                                 continue
                             out.append(dict(fmt=fmt, rows=rows, bad=[bad, col, pos], lazy=lazy, mode=mode, chunked=chunked))
+        # a line with a different number of columns (one fewer / one more than the others)
+        for fmt, base in (("bed3", [[1, 1, 1], [1, 2, 2], [2, 1, 1]]), ("bed6", [[1, 1, 1, 1, 1, 1], [1, 2, 1, 1, 2, 1]])):
+            for bad in range(len(base)):
+                for delta in (-1, +1):
+                    rows = [list(r) for r in base]
+                    rows[bad] = rows[bad][:-1] if delta < 0 else rows[bad] + [1]
+                    for lazy, mode, chunked in ((True, "seek", False), (False, "seek", False), (True, "seek", True)):
+                        out.append(dict(fmt=fmt, rows=rows, bad=[bad, "ncols", delta], lazy=lazy, mode=mode, chunked=chunked))
         # signed values (ragged integer path) in the records before the offending one, in the same column
         rows = [[1, 2, 1], [1, 2, 2], [1, 3, 1]]
         for bad, col, pos in ((2, 1, 0), (2, 1, 1), (1, 1, 1), (2, 2, 0)):
@@ -86,6 +94,8 @@ class Malformed(Harness):
             b = V.int("bad", 33, 126)
             marker = ord("+") if skel["bad"][1] == "plus" else ord("@" if skel["fmt"] == "fastq" else ">")
             V.assume(b.t != marker)
+        elif skel["bad"][1] == "ncols":
+            F.declare_cells(V, skel)
         else:
             F.declare_cells(V, skel)
             r, c, j = skel["bad"]
@@ -145,6 +155,8 @@ class Malformed(Harness):
         if not isinstance(out, Exc):
             return False                                  # a table was returned although the file violates its format
         if out.type == "FormatException":
+            if skel["bad"][1] == "ncols" and skel["bad"][0] == 0:
+                return True         # the first line is the odd one: which line "differs" is a matter of reference, any line number is accepted
             return out.attrs.get("line_number") == self._bad_line(skel)
         return True                                       # other error types: an error is all the property asks for
 
@@ -153,6 +165,8 @@ class Malformed(Harness):
         how = f"{'lazy' if skel['lazy'] else 'eager'}, {skel['mode']}, " + (f"min_chunk_size={cx['k']}" if skel["chunked"] else "read()")
         if not isinstance(cout, Exc):
             return f"malformed {skel['fmt']} file {text!r} ({how}) was read without error: {cout}"
+        if skel["bad"][1] == "ncols" and skel["bad"][0] == 0:
+            return None
         if cout.type == "FormatException" and cout.attrs.get("line_number") != self._bad_line(skel):
             return (f"malformed {skel['fmt']} file {text!r} ({how}): FormatException.line_number={cout.attrs.get('line_number')}, "
                     f"the first offending record is at line {self._bad_line(skel)}")
